@@ -24,7 +24,8 @@ MANIFEST = {
             "the target and is the rel32 relocation would write. Props/C04J: the model of JitRuntime::add refines relocate_to_base(rx); "
             "the real JitRuntime::add / release run on every JIT program (bytes at the returned pointer judged by the monitor and "
             "compared with the model's image; the allocator is C10's subject, executing the code is not part of the check). "
-            "Trusted: as C03. x86 [ABSOLUTE] operands with FS/GS segment bases are not modelled. Model follows the repaired "
+            "Trusted: as C03. FS / GS overrides are in the menu (mov ecx,fs:[..], mov eax,gs:[..] incl. the moffs form, add dword fs:[..],imm8): the monitor "
+            "requires the override byte and judges the effective address (the segment base is added by the CPU to either form). Model follows the repaired "
             "relocate_to_base tail (fixes/C04-1).",
 }
 MODS = ["AsmjitVerif.Props.C04", "AsmjitVerif.Props.C04E", "AsmjitVerif.Props.C04K", "AsmjitVerif.Props.C04J"]
